@@ -15,6 +15,8 @@ import (
 	"time"
 
 	"google.golang.org/grpc"
+	"google.golang.org/grpc/connectivity"
+	"google.golang.org/grpc/credentials/insecure"
 	"google.golang.org/grpc/metadata"
 
 	"github.com/openconfig/gnmi/client"
@@ -148,6 +150,18 @@ func configsBase(tier string) []xplore.Config {
 		for _, cache := range []bool{false, true} {
 			for at := 0; at < events; at++ {
 				out = append(out, xplore.Config{Name: fmt.Sprintf("e: real client (cache=%v) used directly, Subscribe x%d over scripted impl conns=%v, Close from another goroutine started at transport event %d", cache, len(sc), sc, at), Bound: bound - 2, Data: cfgData{part: "e", attempts: sc, cache: cache, closeAt: at}})
+			}
+		}
+	}
+	// (f) the real gNMI transport client built for a connection the CALLER brought
+	// (NewFromConn) behind the real BaseClient / CacheClient, on a stream that
+	// goes idle after 0-2 responses: Close from another goroutine at every
+	// transport event; the stream ends when its context ends or its connection
+	// is shut down (as gRPC streams do) - a half-close alone ends nothing
+	for _, sc := range []string{"", "u", "us"} {
+		for _, cache := range []bool{false, true} {
+			for at := 0; at <= len(sc)+1; at++ {
+				out = append(out, xplore.Config{Name: fmt.Sprintf("f: real client (cache=%v) over the real gNMI transport client on a caller-provided connection, responses=%q then idle, Close started at transport event %d", cache, sc, at), Bound: bound - 2, Data: cfgData{part: "f", resps: sc, cache: cache, closeAt: at}})
 			}
 		}
 	}
@@ -394,6 +408,9 @@ func (harness) Run(cfg xplore.Config, ch vrt.Chooser, trace bool) (xplore.Outcom
 	}
 	if d.part == "e" {
 		return runE(cfg, d, ch, trace)
+	}
+	if d.part == "f" {
+		return runF(cfg, d, ch, trace)
 	}
 	res := vrt.Run(ch, vrt.Options{Reverse: cfg.Reverse, Trace: trace, EarlyTimers: true}, func() {
 		tr := &tracer{}
@@ -910,6 +927,137 @@ func runE(cfg xplore.Config, d cfgData, ch vrt.Chooser, trace bool) (xplore.Outc
 		}
 		if after > 1 {
 			viol("notifications-after-close", "Close reached the transport of stream %d and returned, yet %d further messages of that stream were received and delivered afterwards (at most one is allowed); trace: %s", reached, after, tr)
+		}
+	})
+	if res.Aborted != "" {
+		viol(hutil.AbortClass(res.Aborted, res.Panic), "%s %s", res.Aborted, strings.Join(res.Parked, "; "))
+	}
+	return out, res
+}
+
+// ---- (f) idle stream of the real gNMI transport client on a caller-provided connection
+
+type idleStream struct {
+	grpc.ClientStream
+	ctx   context.Context
+	resps string
+	pos   int
+	down  chan struct{} // closed when the connection under the stream is shut down
+	hook  func()
+	tr    *tracer
+}
+
+func (s *idleStream) Send(*gpb.SubscribeRequest) error { return nil }
+func (s *idleStream) Recv() (*gpb.SubscribeResponse, error) {
+	s.hook()
+	if s.pos < len(s.resps) {
+		k := s.resps[s.pos]
+		s.pos++
+		s.tr.add("recv(%c)", k)
+		if k == 's' {
+			return &gpb.SubscribeResponse{Response: &gpb.SubscribeResponse_SyncResponse{SyncResponse: true}}, nil
+		}
+		return &gpb.SubscribeResponse{Response: &gpb.SubscribeResponse_Update{Update: &gpb.Notification{Timestamp: 1, Prefix: &gpb.Path{Target: "t"}, Update: []*gpb.Update{{Path: &gpb.Path{Elem: []*gpb.PathElem{{Name: "a"}}}, Val: &gpb.TypedValue{Value: &gpb.TypedValue_IntVal{IntVal: int64(s.pos)}}}}}}}, nil
+	}
+	s.tr.add("idle")
+	switch vrt.Select(false, vrt.R(s.ctx.Done()), vrt.R(s.down)) {
+	case 0:
+		vrt.RecvNow(s.ctx.Done())
+		return nil, s.ctx.Err()
+	default:
+		vrt.RecvNow(s.down)
+		return nil, errors.New("rpc error: code = Canceled desc = grpc: the client connection is closing")
+	}
+}
+func (s *idleStream) Header() (metadata.MD, error) { return nil, nil }
+func (s *idleStream) Trailer() metadata.MD         { return nil }
+func (s *idleStream) CloseSend() error             { s.tr.add("half-close"); return nil }
+func (s *idleStream) Context() context.Context     { return s.ctx }
+
+type idleStub struct {
+	gpb.GNMIClient
+	mk func(ctx context.Context) *idleStream
+}
+
+func (s *idleStub) Subscribe(ctx context.Context, _ ...grpc.CallOption) (gpb.GNMI_SubscribeClient, error) {
+	return s.mk(ctx), nil
+}
+
+func runF(cfg xplore.Config, d cfgData, ch vrt.Chooser, trace bool) (xplore.Outcome, *vrt.Result) {
+	var out xplore.Outcome
+	viol := func(class, format string, a ...interface{}) {
+		out.Violations = append(out.Violations, xplore.Violation{Class: class, Msg: fmt.Sprintf(format, a...)})
+	}
+	conn, err := grpc.NewClient("passthrough:///idle", grpc.WithTransportCredentials(insecure.NewCredentials()))
+	if err != nil {
+		panic(err)
+	}
+	defer conn.Close()
+	res := vrt.Run(ch, vrt.Options{Reverse: cfg.Reverse, Trace: trace}, func() {
+		tr := &tracer{}
+		down := make(chan struct{})
+		var c client.Client
+		events := 0
+		closeReturned, closeInvoked := false, false
+		var closeErr error
+		hook := func() {
+			if events++; events-1 != d.closeAt {
+				return
+			}
+			vrt.GoNamed("closer", func() {
+				closeInvoked = true
+				tr.add("CLOSE")
+				closeErr = c.Close()
+				// the transport notices a connection that was shut down
+				if conn.GetState() == connectivity.Shutdown {
+					vrt.Close(down)
+				}
+				closeReturned = true
+				tr.add("CLOSED(%v)", closeErr)
+			})
+		}
+		stub := &idleStub{mk: func(ctx context.Context) *idleStream {
+			tr.add("stream-open")
+			hook()
+			return &idleStream{ctx: ctx, resps: d.resps, down: down, hook: hook, tr: tr}
+		}}
+		client.ResetRegisteredImpls()
+		client.RegisterTest("gnmistub", func(ctx context.Context, dst client.Destination) (client.Impl, error) {
+			return gclient.VerifNewFromConn(ctx, conn, dst, stub)
+		})
+		if d.cache {
+			c = client.New()
+		} else {
+			c = &client.BaseClient{}
+		}
+		q := client.Query{Addrs: []string{"addr"}, Target: "t", Type: client.Stream, Queries: []client.Path{{"*"}}, NotificationHandler: func(client.Notification) error { return nil }}
+		subDone := false
+		var subErr error
+		vrt.GoNamed("subscribe", func() {
+			subErr = c.Subscribe(vcontext.Background(), q, "gnmistub")
+			subDone = true
+			tr.add("SUB-RETURNED(%v)", subErr)
+		})
+		vrt.Idle()
+		out.Obs = tr.String()
+		out.Nontrivial = closeInvoked
+		if !closeInvoked {
+			return // the stream ended before the chosen event (cannot happen with an idle tail)
+		}
+		if closeReturned && closeErr == nil && !subDone {
+			viol("not-terminated", "Close returned nil but Subscribe, whose stream is idle, never returns (a stream ends when its context ends or its connection is shut down - connection state now: %v); parked: %v; trace: %s", conn.GetState(), vrt.ParkedInfo(), tr)
+		}
+		if !closeReturned {
+			viol("not-terminated", "Close never returned; parked: %v; trace: %s", vrt.ParkedInfo(), tr)
+		}
+		if !subDone {
+			// wind down so that no thread is left behind
+			select {
+			case <-down:
+			default:
+				vrt.Close(down)
+			}
+			vrt.Idle()
 		}
 	})
 	if res.Aborted != "" {
